@@ -425,6 +425,17 @@ pub fn uninstall() {
     a10::verif::uninstall();
 }
 
+/// The entry points of the simulated kernel (for drivers other than a10).
+pub fn table() -> a10::verif::Kernel {
+    a10::verif::Kernel {
+        setup: k_setup,
+        register: k_register,
+        enter: enter::k_enter,
+        mmap: k_mmap,
+        munmap: k_munmap,
+    }
+}
+
 /// Reset the kernel for a new history.
 pub fn reset(seed: u64) {
     let mut g = k();
@@ -665,14 +676,21 @@ unsafe fn k_setup(entries: c_uint, params: *mut c_void) -> c_int {
     if flags & SETUP_SQPOLL != 0 && flags & (SETUP_COOP_TASKRUN | SETUP_TASKRUN_FLAG) != 0 {
         return fail(s, libc::EINVAL);
     }
+    if flags & SETUP_TASKRUN_FLAG != 0 && flags & (SETUP_COOP_TASKRUN | SETUP_DEFER_TASKRUN) == 0 {
+        return fail(s, libc::EINVAL);
+    }
     if flags & SETUP_ATTACH_WQ != 0 {
         if !s.rings.contains_key(&(wq_fd as i32)) {
-            let e = if fds::state(wq_fd as i32).is_some() || fds::os_open(wq_fd as i32) {
+            let e = if fds::state(wq_fd as i32).is_some_and(|st| st.closes.is_empty()) || fds::os_open(wq_fd as i32) {
                 libc::EINVAL
             } else {
-                libc::EBADF
+                libc::ENXIO
             };
             return fail(s, e);
+        }
+        // A kernel-thread ring can only share another ring's kernel thread.
+        if flags & SETUP_SQPOLL != 0 && !s.rings[&(wq_fd as i32)].sqpoll() {
+            return fail(s, libc::EINVAL);
         }
     }
     if flags & (SETUP_SQE128 | SETUP_CQE32 | SETUP_NO_MMAP | SETUP_IOPOLL) != 0 {
@@ -696,11 +714,14 @@ unsafe fn k_setup(entries: c_uint, params: *mut c_void) -> c_int {
         ([0u32, 4, 16, 24, 36, 32, 0], [8u32, 12, 20, 28, 44, 64, 40])
     };
     let mut sq_off = sq_off;
+    // The real kernel rounds the ring memory up to whole pages (and the
+    // submission and completion ring are one allocation); a10 maps
+    // `array + 4 * entries` bytes, which is inside it.
     let sq_ring_len = if flags & SETUP_NO_SQARRAY == 0 {
         sq_off[6] = 2048;
-        2048 + 4 * sq_entries as usize
+        mem::round_page(2048 + 4 * sq_entries as usize)
     } else {
-        2048
+        mem::round_page((2048 + CQE_SIZE * cq_entries as usize).max(4 * sq_entries as usize))
     };
     let cq_ring_len = cq_off[5] as usize + CQE_SIZE * cq_entries as usize;
 
@@ -1036,14 +1057,12 @@ unsafe fn k_register(fd: c_int, opcode: c_uint, arg: *const c_void, nr_args: c_u
             let entries = unsafe { a.add(8).cast::<u32>().read_unaligned() };
             let bgid = unsafe { a.add(12).cast::<u16>().read_unaligned() };
             let flags = unsafe { a.add(14).cast::<u16>().read_unaligned() };
-            if flags != 0
-                || entries == 0
-                || !entries.is_power_of_two()
-                || entries > 32768
-                || ring_addr == 0
-                || ring_addr & 4095 != 0
-            {
+            if flags != 0 || entries == 0 || !entries.is_power_of_two() || entries > 32768 || ring_addr & 4095 != 0 {
                 set_errno(libc::EINVAL);
+                return -1;
+            }
+            if ring_addr == 0 {
+                set_errno(libc::EFAULT);
                 return -1;
             }
             let hold_id = s.next_req;
@@ -1082,7 +1101,7 @@ unsafe fn k_register(fd: c_int, opcode: c_uint, arg: *const c_void, nr_args: c_u
                     0
                 }
                 None => {
-                    set_errno(libc::EINVAL);
+                    set_errno(libc::ENOENT);
                     -1
                 }
             }
@@ -1097,6 +1116,7 @@ unsafe fn k_register(fd: c_int, opcode: c_uint, arg: *const c_void, nr_args: c_u
             }
             let ids = s.inflight_of(fd);
             let mut normal = s.knobs.sync_cancel_normal;
+            let mut cancelled = 0;
             for id in ids {
                 let st = s.reqs[&id].state;
                 if st == ReqState::AwaitNotif {
@@ -1105,10 +1125,11 @@ unsafe fn k_register(fd: c_int, opcode: c_uint, arg: *const c_void, nr_args: c_u
                     normal -= 1;
                     effects::complete(s, id, 0, false);
                 } else {
+                    cancelled += 1;
                     effects::complete(s, id, -libc::ECANCELED, false);
                 }
             }
-            0
+            cancelled
         }
         _ => {
             set_errno(libc::EINVAL);
